@@ -704,6 +704,14 @@ theorem firstThat_head {α β : Type} {l : List (α × List Token)} {a : α} {r 
   obtain ⟨tl, rfl⟩ := h
   simp [firstThat, hn]
 
+theorem firstThat_head' {α β : Type} {l : List (α × List Token)} {a : α} {r : List Token}
+    {next : α → List Token → Option β} (h : HeadIs l a r) (hn : (next a r).isSome = true) :
+    firstThat l next = next a r := by
+  obtain ⟨tl, rfl⟩ := h
+  cases h' : next a r with
+  | none => simp [h'] at hn
+  | some b => simp [firstThat, h']
+
 def ParamShape.tokens (p : ParamShape) : Nat := (printParam p).length
 
 theorem paramL_print (p : ParamShape) (pre rest : List Token) (fuel : Nat)
@@ -800,5 +808,350 @@ theorem paramListL_print (ps : List ParamShape) (pre : List Token) (rp : Token) 
       refine ⟨as, ?_, hss⟩
       simp only [paramListL, hst, if_true]
       exact has.append
+
+theorem printTy_length_pos (t : TyShape) : 1 ≤ (printTy t).length := by
+  have := printTy_ne_nil t
+  have : (printTy t).length ≠ 0 := by simpa using this
+  omega
+
+theorem throwList1L_print (l : List TyShape) (hne : l ≠ []) (pre rest : List Token) (fuel : Nat)
+    (hp : pre.map (·.tk) = printTys l) (hf : ListFollow rest) (hfuel : pre.length < fuel) :
+    ∃ as, HeadIs (throwList1L fuel (pre ++ rest)) as rest ∧ mapOpt shapeOf as = some (l.map TyShape.erase) := by
+  match l, hne with
+  | [t], _ =>
+    simp only [printTys] at hp
+    cases fuel with
+    | zero => omega
+    | succ g =>
+      obtain ⟨a, ha, hs⟩ := typeRefL_print t pre rest g hp (FollowOK_of_simple _ _ hf.2.1 hf.2.2)
+        (by have := need_le_length t pre hp; omega)
+      refine ⟨[a], ?_, by simp [mapOpt, hs]⟩
+      simp only [throwList1L, ha, List.flatMap_cons, hf.1, Bool.false_eq_true, if_false, List.flatMap_nil,
+        List.append_nil, List.nil_append, List.map_cons, List.map_nil]
+      exact HeadIs.single _ _
+  | t :: u :: ts, _ =>
+    simp only [printTys] at hp
+    obtain ⟨tpre, b1, rfl, htp, hb⟩ := List.map_eq_append_iff.mp hp
+    obtain ⟨comma, pre', rfl, hcomma, hb⟩ := List.map_eq_cons_iff.mp hb
+    cases fuel with
+    | zero => omega
+    | succ g =>
+      have hfo : FollowOK t (comma :: (pre' ++ rest)) := by
+        apply FollowOK_of_simple <;> simp [peekKw_cons, hcomma]
+      obtain ⟨a, ha, hs⟩ := typeRefL_print t tpre (comma :: (pre' ++ rest)) g htp hfo
+        (by have := need_le_length t tpre htp; simp only [List.length_append, List.length_cons] at hfuel; omega)
+      obtain ⟨as, has, hss⟩ := throwList1L_print (u :: ts) (by simp) pre' rest g hb hf
+        (by simp only [List.length_append, List.length_cons] at hfuel; omega)
+      refine ⟨a :: as, ?_, by simp [mapOpt, hs, hss]⟩
+      have e : tpre ++ comma :: pre' ++ rest = tpre ++ (comma :: (pre' ++ rest)) := by simp
+      rw [e]
+      simp only [throwList1L, ha, List.flatMap_cons, peekKw_eq hcomma, if_true, List.tail_cons, List.flatMap_nil,
+        List.append_nil]
+      exact (HeadIs.map (fun x : List TypeRef × List Token => (a :: x.1, x.2)) has).append
+
+/-- what follows a `throws` clause or a return type in a method / named function: `->` or `;` -/
+def SigFollow (rest : List Token) : Prop := ∃ x xs, rest = x :: xs ∧ (x.tk = .kw "->" ∨ x.tk = .kw ";")
+
+theorem SigFollow.peekKw_false {rest : List Token} (h : SigFollow rest) (s : String) (h1 : s ≠ "->") (h2 : s ≠ ";") :
+    peekKw s rest = false := by
+  obtain ⟨x, xs, rfl, hx | hx⟩ := h
+  · exact peekKw_ne hx (Ne.symm h1)
+  · exact peekKw_ne hx (Ne.symm h2)
+
+theorem SigFollow.listFollow {rest : List Token} (h : SigFollow rest) : ListFollow rest :=
+  ⟨h.peekKw_false _ (by decide) (by decide), h.peekKw_false _ (by decide) (by decide),
+   h.peekKw_false _ (by decide) (by decide)⟩
+
+theorem typeRefL_sigFollow {rest : List Token} (h : SigFollow rest) (fuel : Nat) : typeRefL fuel rest = [] := by
+  cases fuel with
+  | zero => simp [typeRefL]
+  | succ g =>
+    have h1 := h.peekKw_false "function" (by decide) (by decide)
+    have h2 := h.peekKw_false "(" (by decide) (by decide)
+    obtain ⟨x, xs, rfl, hx⟩ := h
+    have h3 : nsIdent (x :: xs) = none := by
+      rcases hx with hx | hx <;> simp [nsIdent, hx]
+    rw [typeRefL.eq_2, h1, h2, dataType_succ, h3]
+    rfl
+
+theorem throwList1L_sigFollow {rest : List Token} (h : SigFollow rest) (fuel : Nat) : throwList1L fuel rest = [] := by
+  cases fuel with
+  | zero => simp [throwList1L]
+  | succ g => simp [throwList1L, typeRefL_sigFollow h]
+
+theorem throwingL_print (thr : Option (List TyShape)) (pre rest : List Token) (fuel : Nat)
+    (hp : pre.map (·.tk) = printThrowing thr) (hrest : SigFollow rest) (hfuel : pre.length < fuel) :
+    ∃ a, HeadIs (throwingL fuel (pre ++ rest)) a rest ∧
+      throwingShape? a = some (thr.map (fun l => l.map TyShape.erase)) := by
+  cases fuel with
+  | zero => omega
+  | succ g =>
+    match thr with
+    | none =>
+      simp [printThrowing] at hp; subst hp
+      refine ⟨none, ?_, rfl⟩
+      simp only [throwingL, List.nil_append, hrest.peekKw_false "throws" (by decide) (by decide)]
+      exact ⟨[], by simp⟩
+    | some [] =>
+      simp only [printThrowing, printTys] at hp
+      obtain ⟨th, b1, rfl, hth, hb⟩ := List.map_eq_cons_iff.mp hp
+      rw [List.map_eq_nil_iff] at hb; subst hb
+      refine ⟨some [], ?_, rfl⟩
+      simp only [throwingL, List.cons_append, List.nil_append, peekKw_eq hth, if_true, List.tail_cons,
+        throwList1L_sigFollow hrest, List.map_nil]
+      exact HeadIs.single _ _
+    | some (t :: ts) =>
+      simp only [printThrowing] at hp
+      obtain ⟨th, pre', rfl, hth, hb⟩ := List.map_eq_cons_iff.mp hp
+      obtain ⟨as, has, hss⟩ := throwList1L_print (t :: ts) (by simp) pre' rest g hb hrest.listFollow
+        (by simp only [List.length_cons] at hfuel; omega)
+      refine ⟨some as, ?_, by simp [throwingShape?, hss]⟩
+      simp only [throwingL, List.cons_append, peekKw_eq hth, if_true, List.tail_cons]
+      exact (HeadIs.map (fun x : List TypeRef × List Token => (some x.1, x.2)) has).append
+
+/-- `functionL` after the optional `function targets` prefix -/
+def sigBody (flags : Option (List String)) (fpos : Pos) (g : Nat) (ts : List Token) : List (FnSig × List Token) :=
+  match kw? "(" ts with
+  | none => []
+  | some ts =>
+    (paramListL g ts).flatMap fun (ps, ts) =>
+      match kw? ")" ts with
+      | none => []
+      | some ts =>
+        (throwingL g ts).flatMap fun (thr, ts) =>
+          (if peekKw "->" ts then (typeRefL g ts.tail).map (fun (r, ts) => (FnSig.mk flags fpos ps thr (some r), ts)) else [])
+          ++ [(FnSig.mk flags fpos ps thr none, ts)]
+
+theorem functionL_succ (g : Nat) (ts : List Token) : functionL (g+1) ts =
+    if peekKw "function" ts then
+      sigBody (some (targets ts.tail).1) (spanPos ts.tail (targets ts.tail).2) g (targets ts.tail).2
+    else sigBody none default g ts := by
+  rw [functionL.eq_2]
+  by_cases h : peekKw "function" ts = true
+  · simp only [h, if_true]
+    generalize targets ts.tail = x
+    obtain ⟨f, r⟩ := x
+    rfl
+  · simp only [h, Bool.false_eq_true, if_false]
+    rfl
+
+theorem sigBody_print (s : SigShape) (flags : Option (List String)) (fpos : Pos) (pre : List Token)
+    (semi : Token) (rest : List Token) (g : Nat)
+    (hp : pre.map (·.tk) = printSig s) (hsemi : semi.tk = .kw ";") (hfuel : pre.length ≤ g + 1) :
+    ∃ ps thr ret, HeadIs (sigBody flags fpos g (pre ++ semi :: rest)) (FnSig.mk flags fpos ps thr ret) (semi :: rest) ∧
+      sigShape? ps thr ret = some s.erase := by
+  obtain ⟨sps, sthr, sret⟩ := s
+  simp only [printSig] at hp
+  obtain ⟨lp, b1, rfl, hlp, hb⟩ := List.map_eq_cons_iff.mp hp
+  obtain ⟨ppre, b2, rfl, hpp, hb⟩ := List.map_eq_append_iff.mp hb
+  obtain ⟨rp, b3, rfl, hrp, hb⟩ := List.map_eq_cons_iff.mp hb
+  obtain ⟨tpre, rpre, rfl, htp, hrpre⟩ := List.map_eq_append_iff.mp hb
+  simp only [List.length_cons, List.length_append] at hfuel
+  have hsf : SigFollow (rpre ++ semi :: rest) := by
+    cases sret with
+    | none => simp [printRet] at hrpre; subst hrpre; exact ⟨semi, rest, rfl, Or.inr hsemi⟩
+    | some t =>
+      simp only [printRet] at hrpre
+      obtain ⟨ar, b4, rfl, har, _⟩ := List.map_eq_cons_iff.mp hrpre
+      exact ⟨ar, _, rfl, Or.inl har⟩
+  obtain ⟨ps, hps, hpss⟩ := paramListL_print sps ppre rp (tpre ++ (rpre ++ semi :: rest)) g hpp hrp (by omega)
+  obtain ⟨thr, hthr, hthrs⟩ := throwingL_print sthr tpre (rpre ++ semi :: rest) g htp hsf (by omega)
+  have e : lp :: (ppre ++ rp :: (tpre ++ rpre)) ++ semi :: rest = lp :: (ppre ++ rp :: (tpre ++ (rpre ++ semi :: rest))) := by
+    simp
+  rw [e]
+  cases sret with
+  | none =>
+    simp [printRet] at hrpre; subst hrpre
+    refine ⟨ps, thr, none, ?_, by simp [sigShape?, hpss, hthrs, retShape?, SigShape.erase]⟩
+    simp only [sigBody, kw?_cons _ _ _ hlp]
+    refine HeadIs.flatMap hps ?_
+    simp only [kw?_cons _ _ _ hrp]
+    refine HeadIs.flatMap hthr ?_
+    simp only [List.nil_append, peekKw_ne hsemi (by decide : ";" ≠ "->"), Bool.false_eq_true, if_false]
+    exact HeadIs.single _ _
+  | some t =>
+    simp only [printRet] at hrpre
+    obtain ⟨ar, rtpre, rfl, har, hrt⟩ := List.map_eq_cons_iff.mp hrpre
+    have hfo : FollowOK t (semi :: rest) := by
+      apply FollowOK_of_simple <;> simp [peekKw_cons, hsemi]
+    simp only [List.length_cons] at hfuel
+    obtain ⟨r, hr, hrs⟩ := typeRefL_print t rtpre (semi :: rest) g hrt hfo
+      (by have := need_le_length t rtpre hrt; omega)
+    refine ⟨ps, thr, some r, ?_, by simp [sigShape?, hpss, hthrs, retShape?, hrs, SigShape.erase]⟩
+    simp only [sigBody, kw?_cons _ _ _ hlp]
+    refine HeadIs.flatMap hps ?_
+    simp only [kw?_cons _ _ _ hrp]
+    refine HeadIs.flatMap hthr ?_
+    simp only [List.cons_append, peekKw_eq har, if_true, List.tail_cons, hr, List.map_cons, List.map_nil]
+    exact ⟨_, rfl⟩
+
+/-- **signatures**: on `[function targets…] ( params ) [throws …] [-> ret] ;` the first candidate of
+    `functionL` is the printed signature and stops in front of the `;` -/
+theorem functionL_print (fl : Option (List String)) (s : SigShape) (fpre pre : List Token) (semi : Token)
+    (rest : List Token) (fuel : Nat)
+    (hfp : fpre.map (·.tk) = printFnKw fl) (hp : pre.map (·.tk) = printSig s) (hsemi : semi.tk = .kw ";")
+    (hfuel : pre.length ≤ fuel) :
+    ∃ fp ps thr ret, HeadIs (functionL fuel (fpre ++ (pre ++ semi :: rest))) (FnSig.mk fl fp ps thr ret) (semi :: rest) ∧
+      sigShape? ps thr ret = some s.erase := by
+  have hlp : ∃ lp tl, pre = lp :: tl ∧ lp.tk = .kw "(" := by
+    simp only [printSig] at hp
+    obtain ⟨lp, b1, rfl, hlp, _⟩ := List.map_eq_cons_iff.mp hp
+    exact ⟨lp, b1, rfl, hlp⟩
+  cases fuel with
+  | zero => obtain ⟨lp, tl, rfl, _⟩ := hlp; simp at hfuel
+  | succ g =>
+    cases fl with
+    | none =>
+      simp [printFnKw] at hfp; subst hfp
+      obtain ⟨ps, thr, ret, h, hs⟩ := sigBody_print s none default pre semi rest g hp hsemi hfuel
+      refine ⟨default, ps, thr, ret, ?_, hs⟩
+      rw [functionL_succ]
+      obtain ⟨lp, tl, rfl, hlp⟩ := hlp
+      simp only [List.nil_append, List.cons_append, peekKw_ne hlp (by decide : "(" ≠ "function"),
+        Bool.false_eq_true, if_false] at h ⊢
+      exact h
+    | some l =>
+      simp only [printFnKw] at hfp
+      obtain ⟨fk, tg, rfl, hfk, htg⟩ := List.map_eq_cons_iff.mp hfp
+      obtain ⟨lp, tl, rfl, hlp⟩ := hlp
+      have ht := targets_print tg l lp (tl ++ semi :: rest) htg (by simp [hlp])
+      obtain ⟨ps, thr, ret, h, hs⟩ := sigBody_print s (some l) (spanPos (tg ++ lp :: (tl ++ semi :: rest)) (lp :: (tl ++ semi :: rest)))
+        (lp :: tl) semi rest g hp hsemi hfuel
+      refine ⟨spanPos (tg ++ lp :: (tl ++ semi :: rest)) (lp :: (tl ++ semi :: rest)), ps, thr, ret, ?_, hs⟩
+      rw [functionL_succ]
+      simp only [List.cons_append, peekKw_eq hfk, if_true, List.tail_cons, ht] at h ⊢
+      exact h
+
+/-! ## members: fields, properties, methods, error codes, deriving lists -/
+
+theorem field_print (s : FieldShape) (q r : List Token) (fuel : Nat)
+    (hq : q.map (·.tk) = printField s) (hfuel : q.length ≤ fuel) :
+    ∃ a, field fuel (q ++ r) = some (a, r) ∧ a.shape? = some s.erase := by
+  obtain ⟨cs, b1, rfl, hcs, hb⟩ := List.map_eq_append_iff.mp hq
+  obtain ⟨nt, b2, rfl, hn, hb⟩ := List.map_eq_cons_iff.mp hb
+  obtain ⟨colon, b3, rfl, hc, hb⟩ := List.map_eq_cons_iff.mp hb
+  obtain ⟨pre, b4, rfl, hpre, hb⟩ := List.map_eq_append_iff.mp hb
+  obtain ⟨semi, b5, rfl, hsemi, hb⟩ := List.map_eq_cons_iff.mp hb
+  rw [List.map_eq_nil_iff] at hb; subst hb
+  have hneed := need_le_length s.ty pre hpre
+  simp only [List.length_append, List.length_cons] at hfuel
+  obtain ⟨f, hf, h1, h2, h3⟩ := field_roundtrip s.ty s.name s.comment cs nt colon semi pre r fuel hcs hn hc hpre hsemi
+    (by omega)
+  refine ⟨f, ?_, ?_⟩
+  · simpa using hf
+  · simp [Field.shape?, h1, h2, h3, FieldShape.erase]
+
+theorem prop_print (s : PropShape) (q r : List Token) (fuel : Nat)
+    (hq : q.map (·.tk) = printProp s) (hfuel : q.length ≤ fuel) :
+    ∃ a, member fuel (q ++ r) = some (a, r) ∧ a.shape? = some (.p s.erase) := by
+  obtain ⟨cs, b1, rfl, hcs, hb⟩ := List.map_eq_append_iff.mp hq
+  obtain ⟨pk, b2, rfl, hpk, hb⟩ := List.map_eq_cons_iff.mp hb
+  obtain ⟨nt, b2, rfl, hn, hb⟩ := List.map_eq_cons_iff.mp hb
+  obtain ⟨colon, b3, rfl, hc, hb⟩ := List.map_eq_cons_iff.mp hb
+  obtain ⟨pre, b4, rfl, hpre, hb⟩ := List.map_eq_append_iff.mp hb
+  obtain ⟨semi, b5, rfl, hsemi, hb⟩ := List.map_eq_cons_iff.mp hb
+  rw [List.map_eq_nil_iff] at hb; subst hb
+  have hneed := need_le_length s.ty pre hpre
+  simp only [List.length_append, List.length_cons] at hfuel
+  have hfol : FollowOK s.ty (semi :: r) := by
+    apply FollowOK_of_simple <;> simp [peekKw_cons, hsemi]
+  obtain ⟨t, ht, hs⟩ := typeRefL_print s.ty pre (semi :: r) fuel hpre hfol (by omega)
+  have hcm := comments_print' cs s.comment pk (nt :: colon :: (pre ++ semi :: r)) hcs (by simp [hpk])
+  unfold member
+  simp only [List.append_assoc, List.cons_append, List.nil_append, hcm, peekKw_eq hpk, if_true, List.tail_cons,
+    ident, hn, Option.bind_eq_bind, Option.bind_some, kw?_cons _ _ _ hc, ht, firstThat, List.findSome?_cons,
+    kw?_cons _ _ _ hsemi, Option.pure_def]
+  exact ⟨_, rfl, by simp [Member.shape?, Prop'.shape?, hs, PropShape.erase]⟩
+
+/-- the head token is one of the keywords `allowed` or an identifier -/
+def HeadKwId (allowed : List String) (ts : List Token) : Prop :=
+  ∃ x xs, ts = x :: xs ∧ ((∃ s ∈ allowed, x.tk = .kw s) ∨ ∃ n, x.tk = .id n)
+
+theorem HeadKwId.base {nt : Token} {n : String} (hn : nt.tk = .id n) (r : List Token) (al : List String) :
+    HeadKwId al (nt :: r) := ⟨nt, r, rfl, Or.inr ⟨n, hn⟩⟩
+
+theorem HeadKwId.step {al : List String} {nx : List Token} (h : HeadKwId al nx) (b : Bool) (s : String)
+    (m : List Token) (hm : m.map (·.tk) = printMod b s) : HeadKwId (s :: al) (m ++ nx) := by
+  cases b with
+  | false =>
+    simp [printMod] at hm; subst hm
+    obtain ⟨x, xs, rfl, h | h⟩ := h
+    · obtain ⟨s', hs', hx⟩ := h
+      exact ⟨x, xs, rfl, Or.inl ⟨s', List.mem_cons_of_mem _ hs', hx⟩⟩
+    · exact ⟨x, xs, rfl, Or.inr h⟩
+  | true =>
+    simp only [printMod, if_true] at hm
+    obtain ⟨k, b1, rfl, hk, hb⟩ := List.map_eq_cons_iff.mp hm
+    exact ⟨k, _, rfl, Or.inl ⟨s, List.mem_cons_self, hk⟩⟩
+
+theorem HeadKwId.peekKw_false {al : List String} {ts : List Token} (h : HeadKwId al ts) (s : String) (hs : s ∉ al) :
+    peekKw s ts = false := by
+  obtain ⟨x, xs, rfl, h | h⟩ := h
+  · obtain ⟨s', hs', hx⟩ := h
+    exact peekKw_ne hx (by rintro rfl; exact hs hs')
+  · obtain ⟨n, hn⟩ := h; exact peekKw_id hn
+
+theorem HeadKwId.comments {al : List String} {ts : List Token} (h : HeadKwId al ts) (cs : List Token) (cstr : List String)
+    (hcs : cs.map (·.tk) = printComments cstr) : comments (cs ++ ts) = (cstr, ts) := by
+  obtain ⟨x, xs, rfl, h⟩ := h
+  apply comments_print' cs cstr x xs hcs
+  rcases h with ⟨s', _, hx⟩ | ⟨n, hn⟩
+  · simp [hx]
+  · simp [hn]
+
+theorem modStep (b : Bool) (s : String) (m nx : List Token) (hm : m.map (·.tk) = printMod b s)
+    (hnx : peekKw s nx = false) :
+    (if peekKw s (m ++ nx) = true then (true, (m ++ nx).tail) else (false, m ++ nx)) = (b, nx) := by
+  cases b with
+  | false => simp [printMod] at hm; subst hm; simp [hnx]
+  | true =>
+    simp only [printMod, if_true] at hm
+    obtain ⟨k, b1, rfl, hk, hb⟩ := List.map_eq_cons_iff.mp hm
+    rw [List.map_eq_nil_iff] at hb; subst hb
+    simp [peekKw_eq hk]
+
+theorem method_print (s : MethodShape) (q r : List Token) (fuel : Nat)
+    (hq : q.map (·.tk) = printMethod s) (hfuel : q.length ≤ fuel) :
+    ∃ a, member fuel (q ++ r) = some (a, r) ∧ a.shape? = some (.m s.erase) := by
+  obtain ⟨cs, b1, rfl, hcs, hb⟩ := List.map_eq_append_iff.mp hq
+  obtain ⟨m1, b2, rfl, hm1, hb⟩ := List.map_eq_append_iff.mp hb
+  obtain ⟨m2, b3, rfl, hm2, hb⟩ := List.map_eq_append_iff.mp hb
+  obtain ⟨m3, b4, rfl, hm3, hb⟩ := List.map_eq_append_iff.mp hb
+  obtain ⟨nt, b5, rfl, hn, hb⟩ := List.map_eq_cons_iff.mp hb
+  obtain ⟨pre, b6, rfl, hpre, hb⟩ := List.map_eq_append_iff.mp hb
+  obtain ⟨semi, b7, rfl, hsemi, hb⟩ := List.map_eq_cons_iff.mp hb
+  rw [List.map_eq_nil_iff] at hb; subst hb
+  simp only [List.length_append, List.length_cons] at hfuel
+  have h0 : HeadKwId [] (nt :: (pre ++ semi :: r)) := HeadKwId.base hn _ _
+  have h3 := h0.step _ _ m3 hm3
+  have h2 := h3.step _ _ m2 hm2
+  have h1 := h2.step _ _ m1 hm1
+  have hcm := h1.comments cs s.comment hcs
+  have e : cs ++ (m1 ++ (m2 ++ (m3 ++ nt :: (pre ++ [semi])))) ++ r =
+      cs ++ (m1 ++ (m2 ++ (m3 ++ nt :: (pre ++ semi :: r)))) := by simp
+  obtain ⟨fp, ps, thr, ret, hfn, hsig⟩ := functionL_print none s.sig [] pre semi r fuel rfl hpre hsemi (by omega)
+  obtain ⟨lp, tl, hlp, hlpk⟩ : ∃ lp tl, pre = lp :: tl ∧ lp.tk = .kw "(" := by
+    simp only [printSig] at hpre
+    obtain ⟨lp, b1, rfl, hlp, _⟩ := List.map_eq_cons_iff.mp hpre
+    exact ⟨lp, b1, rfl, hlp⟩
+  have hpk : peekKw "(" (pre ++ semi :: r) = true := by rw [hlp]; exact peekKw_eq hlpk
+  rw [e]
+  unfold member
+  simp only [hcm, h1.peekKw_false "property" (by decide), Bool.false_eq_true, if_false,
+    modStep _ _ m1 _ hm1 (h2.peekKw_false "static" (by decide)),
+    modStep _ _ m2 _ hm2 (h3.peekKw_false "const" (by decide)),
+    modStep _ _ m3 _ hm3 (h0.peekKw_false "async" (by decide)),
+    ident, hn, Option.bind_eq_bind, Option.bind_some, hpk, Bool.not_true]
+  simp only [List.nil_append] at hfn
+  rw [firstThat_head' hfn (by simp [kw?_cons _ _ _ hsemi])]
+  simp only [kw?_cons _ _ _ hsemi, Option.bind_some, Option.pure_def]
+  exact ⟨_, rfl, by simp [Member.shape?, Method.shape?, hsig, MethodShape.erase]⟩
+
+theorem member_print (s : MemberShape) (q r : List Token) (fuel : Nat)
+    (hq : q.map (·.tk) = printMember s) (hfuel : q.length ≤ fuel) :
+    ∃ a, member fuel (q ++ r) = some (a, r) ∧ a.shape? = some s.erase := by
+  cases s with
+  | m x => exact method_print x q r fuel hq hfuel
+  | p x => exact prop_print x q r fuel hq hfuel
 
 end Pydjinni.Front
